@@ -307,6 +307,73 @@ def run_http_clients(ctx):
                         m.call("o1_base_string", {"method": wm, "uri": wu, "params": pairs_wire(req.params), "host": sh.get("Host")}))
 
 
+def run_client_token_histories(ctx):
+    """One client object whose token credentials are replaced (fetch_access_token's answer, or an assignment): the next request is
+    signed with the NEW token secret, an empty one included."""
+    import asyncio
+    import httpx
+    import requests as _rq
+    from authlib.integrations.httpx_client import AsyncOAuth1Client, OAuth1Client
+    from authlib.integrations.requests_client import OAuth1Session
+    histories = [[("tok1", "ts1"), ("tok2", "")], [("tok1", ""), ("tok2", "ts2"), ("tok3", "")], [("tok1", "ts1"), ("tok2", "ts2")], [("tok1", "ts1"), ("tok1", "other")]]
+    for hi, hist in enumerate(histories):
+        for kind in ("requests", "httpx", "async_httpx"):
+            wires = []
+
+            def handler(request):
+                wires.append((request.method, str(request.url), dict(request.headers)))
+                return httpx.Response(200, json={})
+            real = time.time
+            time.time = lambda: 1_700_000_000
+            try:
+                first = hist[0]
+                kw = dict(client_id="client-key", client_secret="cs", token=first[0], token_secret=first[1])
+                if kind == "requests":
+                    c = OAuth1Session(**kw)
+
+                    def fake_send(r, **kwargs):
+                        wires.append((r.method, r.url, dict(r.headers)))
+                        resp = _rq.Response()
+                        resp.status_code = 200
+                        resp._content = b"{}"
+                        return resp
+                    c.send = fake_send
+                    for j, (tk, sec) in enumerate(hist):
+                        if j:
+                            c.token = {"oauth_token": tk, "oauth_token_secret": sec}
+                        c.get("https://api.example.com/r?n=%d" % j)
+                elif kind == "httpx":
+                    with OAuth1Client(transport=httpx.MockTransport(handler), **kw) as c:
+                        for j, (tk, sec) in enumerate(hist):
+                            if j:
+                                c.token = {"oauth_token": tk, "oauth_token_secret": sec}
+                            c.get("https://api.example.com/r?n=%d" % j)
+                else:
+                    async def go():
+                        async with AsyncOAuth1Client(transport=httpx.MockTransport(handler), **kw) as c:
+                            for j, (tk, sec) in enumerate(hist):
+                                if j:
+                                    c.token = {"oauth_token": tk, "oauth_token_secret": sec}
+                                await c.get("https://api.example.com/r?n=%d" % j)
+                    asyncio.run(go())
+            except Exception as e:  # noqa: BLE001
+                ctx.violation("C11:client-token-history:raises:%s" % type(e).__name__, "an OAuth 1 client raised: %s" % str(e)[:100], {"history": hist, "client": kind})
+                continue
+            finally:
+                time.time = real
+            for j, ((tk, sec), (wm, wu, wh)) in enumerate(zip(hist, wires)):
+                case = {"client_token_history": hi, "client": kind, "step": j, "token_secret": sec}
+                ctx.case(case, ("client-token-history", hi, kind, j), "client-token-history:%s" % kind)
+                h = {k.title(): v for k, v in wh.items()}
+                try:
+                    ok, req = server_verify(wm, wu, {"Authorization": h.get("Authorization", ""), "Host": h.get("Host", "api.example.com")}, "", "cs", sec, "HMAC-SHA1")
+                except Exception as e:  # noqa: BLE001
+                    ok, req = False, None
+                if not ok or req.token != tk:
+                    ctx.violation("C11:client-token-history:not-verified:%s" % kind, "after its token credentials were replaced, the client's request does not verify under the "
+                                  "server with the NEW token and token secret", case)
+
+
 def run(ctx):
     ctx.oracles = oracles()
     ctx.rule = ("base string: method (4, mixed case) x URL (12: case, default/non-default ports, empty path, params, repeated and "
@@ -317,6 +384,7 @@ def run(ctx):
     run_base_string(ctx)
     run_client_server(ctx)
     run_http_clients(ctx)
+    run_client_token_histories(ctx)
 
 
 def run_case(ctx, case):
